@@ -14,7 +14,16 @@ macro_rules! opaque {
         pub struct $n { _p: u8 }
     )* } }
 }
-opaque!(SessionS, SessionState, SessionStopReason, StopArc, ConnStopArc, OutgoingChannel, IncomingChannel, LinkRelayIn, OutputHandle, AllocLinkError, Begin, End, BeginError, EndError, Disposition, SessionInnerError, SessTx, AmqpError, Attach, LinkFlow, Flow, SessionFrame, SessionOutgoingItem, InputHandle, Transfer, Payload, Detach, SessCtl, TransactionManager);
+opaque!(SessionS, SessionState, SessionStopReason, StopArc, ConnStopArc, OutgoingChannel, IncomingChannel, LinkRelayIn, OutputHandle, AllocLinkError, Begin, End, BeginError, EndError, Disposition, SessionInnerError, SessTx, AmqpError, Attach, LinkFlow, SessionFrame, SessionOutgoingItem, InputHandle, Transfer, Payload, Detach, SessCtl, TransactionManager, Fields, FlowRest);
+//@@ gsubst `super::TXN_ID_KEY` => `TXN_ID_KEY` rule=R11
+/// Flow: the field a transactional session may look at (`properties`, where a `txn-id` requests transactional acquisition), the rest is one opaque field (R11)
+pub struct Flow { pub properties: Option<Fields>, pub rest: FlowRest }
+pub const TXN_ID_KEY: &'static str = "txn-id";
+impl Fields {
+    pub uninterp spec fn has_key(&self, k: &str) -> bool;
+    #[verifier::external_body]
+    pub fn contains_key(&self, k: &str) -> (r: bool) ensures r == self.has_key(k) { unimplemented!() }
+}
 
 impl SessionS {
     pub uninterp spec fn get_local_state(self) -> SessionState;
